@@ -45,11 +45,9 @@ theorem merkleProof_on_witness (rd : Rdr) (n : Nat) (h0 : 0 < n) (h : n < 2^64) 
   have e2 := rU64_write_nil n h
   have e3 := readN_hash_nil rd n h0
   unfold merkleProof
-  rw [e1]
-  simp only [GV.Dec.bind]
-  rw [e2]
-  simp only [withCapacity, e3]
-  split <;> simp [Outcome.addAlloc]
+  rw [e1, bind_ok, e2, bind_ok, e3]
+  unfold withCapacity
+  split <;> simp [Outcome.addAlloc, GV.Dec.bind]
 
 /-- **`MerkleProof::read` can panic** (capacity overflow) on a 16-byte input, with either reader. -/
 theorem merkleProof_panics (rd : Rdr) :
